@@ -280,6 +280,8 @@ def to_text(doc):
 def check(case):
     se = lib.L()
     o = core.Obs()
+    if "fields" in case and "doc" not in case:
+        return fuzz_check(case)  # a saved input of the atheris part
     doc, faults = case["doc"], case["faults"]
     bad = apply_faults(doc, faults)
     index = {n["id"]: (n, p) for n, p in docgen.walk(doc["root"])}
@@ -433,9 +435,11 @@ def fuzz_check(case):
             return o.known("KF-TRANSFORM-MIXED-UNITS", "SVG.parse raised ValueError for %s" % text)
         return o.violation("raises:%s@%s" % (type(e).__name__, where), "SVG.parse raised %s: %s\n  document: %s" % (type(e).__name__, str(e)[:100], text))
     shapes = [e for e in svg.elements() if isinstance(e, se.Rect) and e.id == "sentinel"] if svg is not None else []
-    if len(shapes) != 1:
+    # (a fuzzed use may legitimately point at the sentinel and render a second instance of it, before the element itself)
+    referenced = text.count("#sentinel")
+    if len(shapes) < 1 or len(shapes) > 1 + referenced:
         return o.violation("sibling-missing:fuzz", "the sentinel after the faulty elements is rendered %d times\n  document: %s" % (len(shapes), text))
-    s = shapes[0]
+    s = shapes[-1]
     bb = s.bbox()
     fill = None if s.fill is None else s.fill.value
     stroke = None if s.stroke is None else s.stroke.value
